@@ -21,7 +21,7 @@ CLAIMS = {
        "sorted interval array and every split time (rows concatenate to the original, every row wholly on one side, CannotSplit "
        "exactly when a row straddles and early split is not allowed, an early split goes to the latest admissible time, both halves "
        "adjacent and carrying the metadata), that the Chunk constructor enforces its range/dtype/type clauses, and that diff is the gap to "
-       "the running maximum end. concatenate / merge / Rechunker are not yet under contract (see level_note).",
+       "the running maximum end; concatenate / merge of two chunks and the Rechunker are under contract as listed in level_note.",
   note="Also proved: Chunk.concatenate for two chunks of one run (spans both, rows of the first followed by the rows of the second, "
        "refuses out-of-order chunks, result well-formed), Chunk.merge for two chunks, Rechunker.get_splits, Rechunker.receive (with and "
        "without a cached chunk: every row is handed out once or kept, pieces contiguous) and flush, and that Chunk.split hands each "
@@ -38,7 +38,9 @@ CLAIMS = {
        "type, non-dict from a multi-output plugin, bare result without a time range), Plugin.chunk, and continuity_check (gaps/overlaps "
        "raise at the offending chunk and nothing is yielded after it).",
   note="Function-level only: that the exception reaches the user through both processors and that nothing is left in storage as valid "
-       "is not part of this proof (C06/C04). DownChunkingPlugin._fix_output is not yet under contract. dtypes / names are opaque values with "
+       "is not part of this proof (C06/C04). Also proved: Plugin.chunk hands the constructor the plugin's declared dtype / data type / run id, "
+       "DownChunkingPlugin._fix_output checks every label of a dict result, multi-output _fix_output builds a chunk for every provided "
+       "label. dtypes / names are opaque values with "
        "uninterpreted pure functions; f-string texts are dropped.",
   technique="contract-based deductive verification (sidecar contracts, ghost input/output traces for the generator, z3/cvc5)",
   design_ref="DESIGN.md section 6, C12"),
@@ -70,9 +72,12 @@ CLAIMS = {
        "predicate selects; a chunk the loader prunes by its metadata range holds no selected row (lemma); apply_selection keeps exactly the "
        "rows satisfying the mode's predicate, in order, and rejects unknown modes. Hence select(range, loaded rows) = select(range, all rows) "
        "for every law-abiding chunking.",
-  note="Also proved: Context.get_iter applies exactly the request's selection / columns / time range / time_selection to every chunk "
-       "before it is handed out. Not covered: selection strings / callables (numexpr), keep/drop columns, seconds and time_within "
-       "conversion; boolean-mask indexing is a trusted library model.",
+  note="Also proved: Context.get_iter plans the request and filters every chunk with exactly the selection / columns / time_selection "
+       "the caller passed and the absolute time range computed from the request (none re-bound on the way); "
+       "Context.estimate_run_start_and_end returns whole seconds (the first chunk's start floored to the second when inferred from "
+       "data). Bounded stand-ins only (never counted as proved): selection strings / callables (numexpr), keep / drop columns, the "
+       "seconds conversion, and Context.get_array on stored data against the filtered full result (both processors, rechunked "
+       "layouts, no-chunk error, nothing saved by a partial request). Boolean-mask indexing is a trusted library model.",
   technique="contract-based deductive verification (modular: Chunk.split contract at call sites; lemma over the contracts)",
   design_ref="DESIGN.md section 6, C10"),
  "C11": dict(
@@ -128,9 +133,11 @@ CLAIMS = {
        "MailboxKilled is propagated, anything else re-raised after the kill), kill (flags, reason set once, all three conditions "
        "notified), the sender thread _send_from (every exception from the source or from send kills the mailbox; a failed send is "
        "thrown into the source first; regular exhaustion closes), send/_read re-checking the kill flags after every wait, and the "
-       "reader killing the mailbox on a consumer exception at yield; at processor level ThreadedMailboxProcessor.iter kills every mailbox "
+       "reader killing the mailbox on a consumer exception at yield and re-raising it (the callee's default is read from the source); at processor level ThreadedMailboxProcessor.iter kills every mailbox "
        "upstream with the failure's reason, cleans every mailbox up, shuts the executors down and only then re-raises, "
-       "SingleThreadProcessor.iter closes every saver while the exception is being handled before re-raising it, and Context.get_iter "
+       "SingleThreadProcessor.iter closes every saver while the exception is being handled before re-raising it (both also for an "
+       "OutsideException, whose base class is read from the source), the final scan looks at the savers of every data type and a "
+       "processor completes normally only if the pipeline did, and Context.get_iter "
        "throws a failure (or, when the consumer closes the iterator, an OutsideException) into the processor's generator before it "
        "ends. This is the safety half only.",
   note="'every pipeline thread terminates', 'never hangs' and 'terminates when the capacity exceeds the largest lag' are liveness "
